@@ -40,6 +40,9 @@ pub fn streams() -> Vec<Stream> {
     vec![
         Stream { name: "c01", gen: gen_c01, run: run_c01 },
         Stream { name: "c01_static", gen: gen_static, run: run_static },
+        // C17's share of this file: only the level-macro call sites, against level filters (same case grammar,
+        // same runner, same model function)
+        Stream { name: "c17_macro", gen: gen_c17_macro, run: run_c01 },
     ]
 }
 
@@ -1297,7 +1300,7 @@ fn fp_e1(evt: Event<&dyn ErasedProps>) {
 }
 
 /// Number of statically typed fixtures.
-const N_STATIC: usize = 24;
+const N_STATIC: usize = 27;
 
 /// The description (F, E fields of the case line) of fixture `n`, or — with `Some(rest)` — its execution.
 /// The types below are fully static: no adapter node, no narrowing; the generic impls are instantiated at the
@@ -1553,6 +1556,44 @@ fn static_fixture(n: usize, run: Option<&Rest>) -> Option<(String, String, Optio
                 )
                 .wrap_emitter(wrapping::from_fn(map_fn(MapF::AddProp("k".into(), V::I(2)))))
                 .wrap_emitter(wrapping::from_fn(map_fn(MapF::AddProp("k".into(), V::I(1)))))
+        ),
+        // library leaf filters at their own static types (they take a leaf number but record nothing)
+        24 => fixture!(
+            format!("(and (minlvl warn none) (leaf (haskey {a})))"),
+            "(and (leaf true) (wrapf (kind span) (leaf (ge 1))))".into(),
+            emit::level::min_filter(Level::Warn).and_when(lf(1, hk("a"))),
+            le(0, FlushB::Always(true))
+                .and_to(le(1, FlushB::Ge(1)).wrap_emitter(wrapping::from_filter(emit::kind::is_span_filter())))
+        ),
+        25 => fixture!(
+            format!(
+                "(or (pathmap (p {m} warn none) (p {mn} debug info) (d error none)) (kindnew metric))",
+                mn = hx("m::n")
+            ),
+            "(dynbox (wrapf (minlvl info error) fnleaf))".into(),
+            {
+                let mut map = emit::level::min_by_path_filter([
+                    (Path::new_raw("m"), emit::level::min_filter(Level::Warn)),
+                    (Path::new_raw("m::n"), emit::level::min_filter(Level::Debug).treat_unleveled_as(Level::Info)),
+                ]);
+                map.default_min_level(emit::level::min_filter(Level::Error));
+                map.or_when(emit::kind::KindFilter::new(emit::Kind::Metric))
+            },
+            Box::new(fn_leaf_e(0).wrap_emitter(wrapping::from_filter(
+                emit::level::min_filter(Level::Info).treat_unleveled_as(Level::Error)
+            ))) as Box<DynE>
+        ),
+        26 => fixture!(
+            "(internal (minlvl info none))".into(),
+            "(and fnleaf (rt (kind span) (amb) 4 (leaf true)))".into(),
+            AssertInternal(emit::level::min_filter(Level::Info)),
+            fn_leaf_e(0).and_to(Runtime::build(
+                le(1, FlushB::Always(true)),
+                emit::kind::is_span_filter(),
+                TestCtxt(PropList(vec![])),
+                TestClock(ts(4)),
+                Empty
+            ))
         ),
         _ => None,
     }
@@ -1864,6 +1905,11 @@ fn g_lvl_or_plain(r: &mut Rng) -> Sexp {
 /// VIA, WHEN, EVT for a random case, and how many leaves in 8 of the case's filters should be library filters
 /// (the level-macro call sites are mostly run against level filters).
 fn g_via_when_evt(r: &mut Rng, depth: usize) -> (Sexp, Sexp, Sexp, u64) {
+    g_via_when_evt_from(r, depth, 0)
+}
+
+/// `first` = the lowest entry-point class drawn (12 = only the level-macro call sites).
+fn g_via_when_evt_from(r: &mut Rng, depth: usize, first: u64) -> (Sexp, Sexp, Sexp, u64) {
     let rt_kind = *r.pick(&["gen", "gen", "gen", "slot", "setup"]);
     let mut tpl = pk(r, TPLS).to_string();
     let mut prefix = Vec::new();
@@ -1871,7 +1917,7 @@ fn g_via_when_evt(r: &mut Rng, depth: usize) -> (Sexp, Sexp, Sexp, u64) {
     let mut lib = 1;
     let mut span = false;
     let mut allow_when = true;
-    let (entry, hookish) = match r.below(18) {
+    let (entry, hookish) = match first + r.below(18 - first) {
         // the level emit macros, the *_evt! macros + emit!(evt:), the level span macros
         12 | 13 => {
             let fx = macro_fixtures();
@@ -1961,6 +2007,25 @@ fn gen_c01(r: &mut Rng, tier: Tier, n: usize) -> Vec<String> {
         let f = if i % 10 == 3 { Sexp::atom("empty") } else { g_filter(r, if lib > 1 { depth.min(3) } else { depth }, &mut fb, lib) };
         let mut nested = 0;
         let e = if i % 10 == 7 { Sexp::tagged("leaf", vec![Sexp::atom("true")]) } else { g_emitter(r, depth, &mut eb, t, &mut nested) };
+        out.push(Sexp::tagged("c01", vec![via, f, e, g_amb(r), g_clk(r), when, evt, Sexp::num(t)]).to_string());
+    }
+    out
+}
+
+/// Level-macro call sites only, mostly against level filters, small destinations.
+fn gen_c17_macro(r: &mut Rng, _tier: Tier, n: usize) -> Vec<String> {
+    let r = &mut r.fork();
+    let mut out = Vec::with_capacity(n);
+    for _ in 0..n {
+        let t = g_timeout(r);
+        let (via, when, evt, _) = g_via_when_evt_from(r, 3, 12);
+        let mut fb = 6;
+        let fd = 1 + r.usize(3);
+        let f = g_filter(r, fd, &mut fb, 7);
+        let mut eb = 4;
+        let mut nested = 2; // no nested runtimes
+        let ed = 1 + r.usize(2);
+        let e = g_emitter(r, ed, &mut eb, t, &mut nested);
         out.push(Sexp::tagged("c01", vec![via, f, e, g_amb(r), g_clk(r), when, evt, Sexp::num(t)]).to_string());
     }
     out
